@@ -824,8 +824,18 @@ def r05_11(ctx, prog, crate):
             inner = r
             while inner[0] == "cast":
                 inner = inner[2]
-            ok = len(sums) == 1 and inner[0] == "div" and "Iterator::sum" in str(inner[1]) and "slice::len" in str(inner[2]) and \
-                str(inner[1]).count("CounterCollection::counts', 0") >= 1 and str(inner[2]).count("CounterCollection::counts', 0") >= 1
+            lk = [c for c in sums[0].calls if c[0] in (CC + "info", CC + "info_mut", CC + "counts")] if len(sums) == 1 else []
+            site = "%s', %d" % (lk[0][0].rsplit("::", 1)[-1], lk[0][2]) if len(lk) == 1 else "?"
+            def regions(e, acc):
+                if isinstance(e, tuple):
+                    if len(e) == 3 and e[0] == "ret" and isinstance(e[1], str):
+                        acc.add(e)
+                    for x_ in e:
+                        regions(x_, acc)
+                return acc
+            same = regions(inner[1], set()) & regions(inner[2], set()) if inner[0] == "div" else set()
+            ok = len(sums) == 1 and inner[0] == "div" and "Iterator::sum" in str(inner[1]) and "len" in str(inner[2]) and \
+                ((str(inner[1]).count(site) >= 1 and str(inner[2]).count(site) >= 1) or (len(lk) == 1 and bool(same)))
             ctx.check(ok, "R05.11", [n, "sum-over-len-of-the-same-list"], "mean_count returns %s" % (r,), b.where(0))
     b = bodies["push_counter"]
     sums = PathEval(b).run()
